@@ -32,15 +32,10 @@ def feed(reader, wire: bytes, cutspec: dict, probe=None, bystander=None) -> Feed
     process whose reader is fed between our calls. Instances must not influence each other."""
     out = Feed()
     as_bytearray = cutspec.get("as") == "bytearray"
-    other, other_wire, other_pos = (bystander[0], bystander[1], 0) if bystander else (None, b"", 0)
+    by = Bystander(bystander[0], bystander[1]) if bystander else None
     for idx, chunk in enumerate(fragment.chunks(wire, cutspec)):
-        if other is not None and other_pos < len(other_wire):
-            step = 1 + (idx * 7) % 23
-            try:
-                other.read(other_wire[other_pos : other_pos + step])
-            except Exception:  # noqa: BLE001 - the bystander's own trouble is not judged here
-                other = None
-            other_pos += step
+        if by is not None:
+            by.step(idx)
         if as_bytearray:
             chunk = bytearray(chunk)  # transports may hand over a bytearray; the reader must not depend on the type
         try:
@@ -53,6 +48,39 @@ def feed(reader, wire: bytes, cutspec: dict, probe=None, bystander=None) -> Feed
         if probe is not None:
             probe(reader, chunk, out.probes)
     return out
+
+
+class Bystander:
+    """Another connection of the same process: its own reader instance, fed its own traffic between our
+    calls, and re-created now and then (that connection re-connects). Instances must be isolated."""
+
+    def __init__(self, reader, wire: bytes) -> None:
+        self.reader = reader
+        self.wire = wire
+        self.pos = 0
+        self.cls_args = None
+
+    def step(self, idx: int) -> None:
+        if self.reader is None:
+            return
+        if idx % 9 == 5:  # the other connection drops and comes back: a fresh reader object is constructed
+            try:
+                cls = type(self.reader)
+                if cls.__name__ == "HdlcFrameReader":
+                    self.reader = cls(bool(getattr(self.reader, "_use_octet_stuffing", False)), bool(getattr(self.reader, "_use_abort_sequence", False)))
+                else:
+                    self.reader = cls()
+            except Exception:  # noqa: BLE001
+                self.reader = None
+                return
+        if self.pos >= len(self.wire):
+            self.pos = 0
+        step = 1 + (idx * 7) % 23
+        try:
+            self.reader.read(self.wire[self.pos : self.pos + step])
+        except Exception:  # noqa: BLE001 - the bystander's own trouble is not judged here
+            self.reader = None
+        self.pos += step
 
 
 def exc_site(ex: BaseException) -> str:
